@@ -270,6 +270,7 @@ func C05(c *vlib.Ctx) {
 	c05Dense(c)
 	for i, be := range []string{"memory", "sqlite"} {
 		leasecheck.TimingProbe(c, vlib.Derive(c.Seed, "C05timing", i), be, "C05/timing/"+be)
+		leasecheck.HugeDurationProbe(c, vlib.Derive(c.Seed, "C05huge", i), be, "C05/huge/"+be)
 	}
 	c05LongHistory(c)
 	c05Pull(c)
